@@ -24,7 +24,6 @@ import (
 	"testing"
 	"time"
 
-	"golang.org/x/telemetry/internal/configstore"
 	"golang.org/x/telemetry/internal/telemetry"
 	"golang.org/x/telemetry/internal/upload"
 	"golang.org/x/telemetry/internal/verifsim/hlib"
@@ -336,7 +335,7 @@ func scenarioMachine(c *hlib.RunCtx) *hlib.Violation {
 	rand.Reader = xReader{m}
 	defer func() { rand.Reader = saveReader }()
 	m.cfgs = append(m.cfgs, mgen.GenConfig(m.t, "v0.1.0"))
-	configstore.VerifDownload = func(version string, env []string) (*telemetry.UploadConfig, string, error) {
+	mgen.ServeConfig(s, c.Dir, nil, func(version string, env []string) (*telemetry.UploadConfig, string, error) {
 		simrt.Yield("config:download")
 		tk := simrt.Cur()
 		if t.Bool(1, 12) {
@@ -357,8 +356,7 @@ func scenarioMachine(c *hlib.RunCtx) *hlib.Violation {
 		var cp telemetry.UploadConfig
 		json.Unmarshal(js, &cp)
 		return &cp, cur.Version, nil
-	}
-	defer func() { configstore.VerifDownload = nil }()
+	})
 
 	// Which behaviours are on depends on the property's family.
 	modeChanges := prop == "C02" || prop == "C19" || family == "modes"
